@@ -3,6 +3,7 @@ host endpoint that needs per-packet hooks (felix/dataplane/linux/flowtable_mgr.g
 
 Leg of checks/C41.py:  run_state_half(ctx) / selftest_state_half(ctx).
 """
+from checks import mgr_common
 from vlib import pipeline
 
 PKG = "felix/dataplane/linux"
@@ -42,8 +43,12 @@ P = {
     "specdir": "flowexcl",
     "design": [{"module": "MC_I_FlowExcl", "cfg": "MC_I_FlowExcl_quick.cfg", "thorough_cfg": "MC_I_FlowExcl.cfg",
                 "workers": 4, "timeout": 300, "thorough_timeout": 1500, "heap": "4g"}],
-    "gen": {"module": "Gen_FlowExcl", "cfg": "Gen_cover.cfg", "workers": 2, "max": 1200, "thorough_max": 20000,
-            "timeout": 300, "thorough_timeout": 900},
+    "gens": [
+        {"module": "Gen_FlowExcl", "cfg": "Gen_cover.cfg", "workers": 2, "max": 1200, "thorough_max": 20000,
+         "timeout": 300, "thorough_timeout": 900},
+        {"module": "Gen_FlowExcl", "cfg": "Gen_sim.cfg", "simulate": {"num": 60, "depth": 40},
+         "thorough_simulate": {"num": 2000, "depth": 40}, "timeout": 300, "thorough_timeout": 900},
+    ],
     "driver": {"overlay_pkg": PKG, "run": "^TestVerifMgrFlowExcl$"},
     "n_random": (300, 6000),
     "trace": {"module": "T_FlowExcl", "cfg": "T_FlowExcl.cfg", "heap": "4g"},
@@ -62,22 +67,20 @@ P = {
 
 
 def run_state_half(ctx):
-    pipeline.standard_check(ctx, P)
-    if not ctx.replay and not ctx.violations:
-        P2 = dict(P)
-        P2["design"] = []
-        P2["gen"] = {"module": "Gen_FlowExcl", "cfg": "Gen_sim.cfg", "simulate": {"num": 60, "depth": 40},
-                     "thorough_simulate": {"num": 2000, "depth": 40}, "timeout": 300, "thorough_timeout": 900}
-        P2["n_random"] = (0, 0)
-        pipeline.standard_check(ctx, P2)
+    mgr_common.run_legs(ctx, P)
 
 
 def selftest_state_half(ctx):
     def drop_update(evs):
-        # lose the first update of an endpoint that needs hooks and has an address
-        for i, e in enumerate(evs):
-            if e["ev"] in ("wep_update", "hep_update") and _needs(e["f"]) and (e["v4"] or e["v6"]):
-                return evs[:i] + evs[i + 1:]
+        # lose an update of an endpoint that needs hooks, directly followed by a flush, whose address nobody
+        # else in that trace ever used
+        for i, e in enumerate(evs[:-1]):
+            if e["ev"] in ("wep_update", "hep_update") and _needs(e["f"]) and e["v4"] and evs[i + 1]["ev"] == "flush":
+                ip = e["v4"][0]["ip"]
+                others = [x for x in evs[:i] if x["t"] == e["t"] and x["ev"] in ("wep_update", "hep_update")
+                          and any(a["ip"] == ip for a in x["v4"])]
+                if not others and ip in evs[i + 1]["set4"]:
+                    return evs[:i] + evs[i + 1:]
 
     def add_member(evs):
         for e in evs:
@@ -92,11 +95,18 @@ def selftest_state_half(ctx):
                 return evs
 
     def bandwidth_only_counts(evs):
-        # pretend a bandwidth-only endpoint was a packet-rate limited one: its addresses become expected
-        for e in evs:
+        # pretend a bandwidth-only endpoint was a packet-rate limited one: its addresses become expected.
+        # Pick an update whose address is absent from the set at the next flush of the same trace.
+        for i, e in enumerate(evs):
             if e["ev"] == "wep_update" and not _needs(e["f"]) and e["v4"]:
-                e["f"] = dict(e["f"], ipr=5)
-                return evs
+                for x in evs[i + 1:]:
+                    if x["t"] != e["t"] or (x["ev"] in ("wep_update", "wep_remove") and x["id"] == e["id"]):
+                        break
+                    if x["ev"] == "flush":
+                        if e["v4"][0]["ip"] not in x["set4"]:
+                            e["f"] = dict(e["f"], ipr=5)
+                            return evs
+                        break
 
     return pipeline.corruption_selftest(ctx, P, [("drop_update", drop_update), ("add_member", add_member),
                                                  ("lose_member", lose_member),
